@@ -196,6 +196,11 @@ def openers(prog):
             any(x['k'] == 'UnaryOperator' and x.get('op') == '++' for y in kids(ks[1]) if y is not None for x in [strip(y)])
         if inc:
             B |= {strip(call_args(x)[1], casts=True).get('s') for x in walk(ks[0]) if callee(x) in ('strcmp', 'strcasecmp')}
+            for x in walk(ks[0]):
+                if callee(x) in ('strncmp', 'strncasecmp'):
+                    lit = strip(call_args(x)[1], casts=True).get('s') or ''
+                    ln = const(call_args(x)[2])
+                    B.add(lit if ln is not None and ln > len(lit) else (lit[:ln] if ln is not None else lit) + '*')
     if not A or not B:
         raise AnalysisBroken('T-SIB(c): opener sets not recognised (%s / %s)' % (A, B))
     ok = A == B
